@@ -30,6 +30,13 @@ a literal copy of the Python text is decided HERE, once, and is what must be rea
 * `math.sqrt`, `math.sin`, … are NOT interpreted: they are function parameters of the generated definition
   (`sqrt : α → α`), instantiated by libm in the driver and by Mathlib's real functions in theorems. Their
   `ValueError` on a domain error (e.g. `math.sqrt(-1.0)`) is NOT modelled.
+* `math.floor(x)` is a parameter `floor : α → Int`, `int(x)` on a float a parameter `trunc : α → Int`, `math.pi` a
+  parameter `pi : α` (uninterpreted, like `sqrt`); `x.is_integer()` is `float(floor(x)) == x` (`isInteger`).
+* An object parameter (`self`, `coord`) is declared in the translator's signature with the attributes and the
+  argument-less accessor methods the function reads; each is one parameter of the generated definition
+  (`self_xmin`, `coord_getX`): the accessors are ASSUMED to be pure getters, they are not translated.
+* Strings (`"…"`, `"…".format(…)`, `str(…)`, `+` of those) and `print(…)` are not rendered; they can only flow
+  into `print`, and their sub-expressions are assumed not to raise.
 * `L[k]` with a literal `k ≥ 0` on a list (`getItem`): `IndexError` when `k ≥ len(L)`.
   `x.append(e)` on a list created in the same function is `x := x ++ [e]`.
 * A Python `int` is a Lean `Int`; `%` and `//` are the floor versions (`Int.fmod`, `Int.fdiv`) with
@@ -84,6 +91,10 @@ variable {α : Type}
 
 /-- `max(a, b)` -/
 @[inline] def fmax [LT α] [DecidableLT α] (a b : α) : α := if a < b then b else a
+
+/-- `x.is_integer()` on a float, `floor` being `math.floor`: `float(floor(x)) == x` -/
+@[inline] def isInteger [LE α] [DecidableLE α] [IntCast α] (floor : α → Int) (x : α) : Bool :=
+  feq ((floor x : Int) : α) x
 
 end scalar
 
